@@ -390,6 +390,13 @@ func c09KeyGrid(r *core.Run, idx int, rng *rand.Rand) {
 
 // ---------- endpoints x methods x parameters ----------
 
+// contentTypes: what a request may announce about its body (media types of every family the form parsers of net/http
+// distinguish, in several spellings, well-formed or not).
+var contentTypes = []string{"", "application/x-www-form-urlencoded", "text/xml", "multipart/form-data; boundary=x", "application/json", "application/x-www-form-urlencoded; charset=bogus",
+	"multipart/mixed; boundary=x", "multipart/related; boundary=x", "Multipart/Mixed; boundary=x", "multipart/form-data", "multipart/form-data; boundary=", "MULTIPART/FORM-DATA; BOUNDARY=x",
+	"multipart/byteranges; boundary=x", "multipart/", "text/plain", "application/octet-stream", "application/soap+xml; charset=utf-8", "/;=", ";;;", "application/x-www-form-urlencoded;",
+	"application/x-www-form-urlencoded; boundary=x", "text/xml; charset=utf-16", "*/*", "application/x-www-form-urlencoded, text/xml"}
+
 func c09Endpoints(r *core.Run, idx int, rng *rand.Rand) {
 	const wl = "endpoint_parameter_grid"
 	e := c09World()
@@ -412,7 +419,8 @@ func c09Endpoints(r *core.Run, idx int, rng *rand.Rand) {
 				body = append(body, kv)
 			}
 		}
-		ct := []string{"", "application/x-www-form-urlencoded", "text/xml", "multipart/form-data; boundary=x", "application/json", "application/x-www-form-urlencoded; charset=bogus"}[rng.Intn(6)]
+		ct := contentTypes[rng.Intn(len(contentTypes))]
+		r.Seen("content_types", ct)
 		hdr := map[string][]string{}
 		if rng.Intn(3) == 0 {
 			hdr["Origin"] = []string{"https://evil.example"}
@@ -421,7 +429,21 @@ func c09Endpoints(r *core.Run, idx int, rng *rand.Rand) {
 		if rng.Intn(4) == 0 {
 			hdr["Forwarded"] = []string{[]string{"host=a.example", "host=\"", "for=1;host", ";;;", "host=a, host=b"}[rng.Intn(5)]}
 		}
-		call := e.Do(env.Req{Method: method, Path: path, Query: strings.Join(q, "&"), Body: strings.Join(body, "&"), CT: ct, Headers: hdr, Host: []string{"", "idp.example", "x y", "[::1]:80", ""}[rng.Intn(5)]})
+		bodyText := strings.Join(body, "&")
+		if strings.HasPrefix(strings.ToLower(ct), "multipart/") && rng.Intn(2) == 0 {
+			// a body that really is multipart (boundary x), complete or cut off
+			var mb strings.Builder
+			for i := 0; i+1 <= len(body); i++ {
+				n, v, _ := strings.Cut(body[i], "=")
+				mb.WriteString("--x\r\nContent-Disposition: form-data; name=\"" + n + "\"\r\n\r\n" + v + "\r\n")
+			}
+			mb.WriteString("--x--\r\n")
+			bodyText = mb.String()
+			if rng.Intn(3) == 0 {
+				bodyText = bodyText[:rng.Intn(len(bodyText))]
+			}
+		}
+		call := e.Do(env.Req{Method: method, Path: path, Query: strings.Join(q, "&"), Body: bodyText, CT: ct, Headers: hdr, Host: []string{"", "idp.example", "x y", "[::1]:80", ""}[rng.Intn(5)]})
 		r.Count("requests", 1)
 		if call.Panic != "" {
 			r.Violate(core.Violation{Clause: "panic", Class: path + "|" + method, Reason: firstLine(call.Panic) + " @ " + panicSite(call.Stack), Workload: wl, Index: idx, Observed: call.Describe()})
